@@ -3,45 +3,64 @@ import CollectionsC.Proofs.DequeCross
 /-! # C06 (deque part) — memory safety and leak freedom
 
 What the model can carry (see DESIGN §8 C06): every slot index used by every operation is below the
-allocated slot count and no release happens with nothing live (`Mem.fault` stays false), the ledger
-balance `Mem.live` moves exactly with the number of blocks the objects own (a deque owns two: header and
-buffer), and the callback variants hand each held element to the callback exactly once.  All statements
-hold for **every** state satisfying `Deque.Inv`, every argument in ℕ, every refusal schedule — and, for
-memory safety, also inside finding D3's range of `add_at` (the wrong branch is still memory-safe). -/
+allocated slot count — and the invariant says the block is *exactly* `capacity` slots long, so this is
+"inside `[0, capacity)`" — and no release happens with nothing live (`Mem.fault` stays false); the ledger
+balance **of the deque's own allocator triple** moves exactly with the number of blocks the objects own (a
+deque owns two: header and buffer) while the other triple is not touched at all; the callback variants hand
+each held element to the callback exactly once.  `Deque.memSame t m' m` packs: same balance on both triples,
+same fault flag, no event on the other triple.  All statements hold for **every** state satisfying
+`Deque.Inv`, every argument in ℕ, every refusal schedule, both triples — and, for memory safety, also
+inside finding D3's range of `add_at` (the wrong branch is still memory-safe). -/
 namespace CC.Properties.C06Deque
 open CC CC.Properties.C05
 
-/-- **(a) nofault + (b) ledger, one step, no exception for D3**: every operation preserves the invariant,
-leaves the fault flag and the ledger balance as they were (the deque owns two blocks before and after) -/
+/-- **(a) nofault + (b) ledger, one step, no exception for D3**: every operation preserves the invariant
+(so the buffer block stays exactly `capacity` slots), leaves the fault flag and both balances as they were
+(the deque owns two blocks on its triple before and after) and keeps its triple -/
 theorem step_safe (d : Deque) (m : Mem) (op : Op) (hi : d.Inv) :
-    (stepM d m op).2.1.Inv ∧ Deque.memSame (stepM d m op).2.2 m := by
-  by_cases hD3 : inD3 d.size op
-  · cases op
-    case addAt x i =>
-      obtain ⟨a1, a2, _, _⟩ := Deque.addAt_inv d x i m hi
-      exact ⟨a1, a2⟩
-    all_goals exact hD3.elim
-  · rcases step_refines d m op hi hD3 with ⟨_, _, s3, s4⟩ | ⟨_, _, s3, s4, _⟩
-    · exact ⟨s3, s4⟩
-    · exact ⟨by rw [s3]; exact hi, s4⟩
+    (stepM d m op).2.1.Inv ∧ Deque.memSame d.triple (stepM d m op).2.2 m ∧ (stepM d m op).2.1.triple = d.triple := by
+  refine ⟨?_, ?_, step_triple d m op⟩
+  · by_cases hD3 : inD3 d.size op
+    · cases op
+      case addAt x i => exact (Deque.addAt_inv d x i m hi).1
+      all_goals exact hD3.elim
+    · rcases step_refines d m op hi hD3 with ⟨_, _, s3, _⟩ | ⟨_, _, s3, _⟩
+      · exact s3
+      · rw [s3]; exact hi
+  · by_cases hD3 : inD3 d.size op
+    · cases op
+      case addAt x i => exact (Deque.addAt_inv d x i m hi).2.1
+      all_goals exact hD3.elim
+    · rcases step_refines d m op hi hD3 with ⟨_, _, _, s4⟩ | ⟨_, _, _, s4, _⟩
+      · exact s4
+      · exact s4
 
 theorem step_nofault (d : Deque) (m : Mem) (op : Op) (hi : d.Inv) : (stepM d m op).2.2.fault = m.fault :=
-  (step_safe d m op hi).2.2.1
+  (step_safe d m op hi).2.1.2.1
 
-theorem step_ledger (d : Deque) (m : Mem) (op : Op) (hi : d.Inv) : (stepM d m op).2.2.live = m.live :=
-  (step_safe d m op hi).2.1
+/-- the balance of the deque's own triple is unchanged by every operation (it owns two blocks throughout) -/
+theorem step_ledger (d : Deque) (m : Mem) (op : Op) (hi : d.Inv) :
+    Deque.liveOf d.triple (stepM d m op).2.2 = Deque.liveOf d.triple m := by
+  have := (step_safe d m op hi).2.1.1; simpa using this
 
 /-- **lifted to histories**: any operation sequence, any arguments (out-of-range indices, D3's range),
-any refusal schedule -/
+any refusal schedule: invariant (block = `capacity` slots) at the end, no fault, balanced ledger -/
 theorem history_nofault (ops : List Op) (d : Deque) (m : Mem) (hi : d.Inv) :
-    (runM d m ops).2.1.Inv ∧ (runM d m ops).2.2.fault = m.fault ∧ (runM d m ops).2.2.live = m.live := by
+    (runM d m ops).2.1.Inv ∧ Deque.memSame d.triple (runM d m ops).2.2 m ∧ (runM d m ops).2.1.triple = d.triple := by
   induction ops generalizing d m with
-  | nil => exact ⟨hi, rfl, rfl⟩
+  | nil => exact ⟨hi, Deque.memSame_refl _ m, rfl⟩
   | cons op ops ih =>
-    obtain ⟨s1, s2⟩ := step_safe d m op hi
+    obtain ⟨s1, s2, s3⟩ := step_safe d m op hi
     obtain ⟨r1, r2, r3⟩ := ih (stepM d m op).2.1 (stepM d m op).2.2 s1
     simp only [runM]
-    exact ⟨r1, by rw [r2, s2.2.1], by rw [r3, s2.1]⟩
+    rw [s3] at r2 r3
+    exact ⟨r1, Deque.memSame_trans r2 s2, r3⟩
+
+theorem history_fault_and_balance (ops : List Op) (d : Deque) (m : Mem) (hi : d.Inv) :
+    (runM d m ops).2.2.fault = m.fault ∧ (runM d m ops).2.2.live = m.live ∧
+    (runM d m ops).2.2.liveLibc = m.liveLibc := by
+  have h := Deque.memSame_bal (history_nofault ops d m hi).2.1
+  exact ⟨h.2.2.1, h.1, h.2.1⟩
 
 /-- iterator operations: same guarantees, for every cursor value (also before the first `next`, after
 the end, and — for `iter_add` — inside D3's range) -/
@@ -49,13 +68,15 @@ theorem iterator_safe (it : Deque.Iter) (d : Deque) (x : Nat) (m : Mem) (hi : d.
     (Deque.iterNext it d m).2.2.2 = m ∧
     ((Deque.iterRemove it d m).2.2.2.1.Inv ∧ (Deque.iterRemove it d m).2.2.2.2 = m) ∧
     ((Deque.iterReplace it d x m).2.2.1.Inv ∧ (Deque.iterReplace it d x m).2.2.2 = m) ∧
-    ((Deque.iterAdd it d x m).2.2.1.Inv ∧ Deque.memSame (Deque.iterAdd it d x m).2.2.2 m) := by
+    ((Deque.iterAdd it d x m).2.2.1.Inv ∧ Deque.memSame d.triple (Deque.iterAdd it d x m).2.2.2 m) := by
   obtain ⟨_, _, _, n4⟩ := Deque.iterNext_spec it d m hi
   obtain ⟨_, _, _, _, r5, r6, _⟩ := Deque.iterRemove_spec it d m hi
   obtain ⟨_, _, _, p4, p5⟩ := Deque.iterReplace_spec it d x m hi
   obtain ⟨a1, a2, _⟩ := Deque.iterAdd_safe it d x m hi
   exact ⟨n4, ⟨r5, r6⟩, ⟨p4, p5⟩, ⟨a1, a2⟩⟩
 
+/-- zip iterator over two deques, each on its own triple (`memSame2`: both balances and the fault flag as
+they were; a side of the ledger neither deque uses is untouched) -/
 theorem zip_iterator_safe (it : Deque.Iter) (d1 d2 : Deque) (x y : Nat) (m : Mem) (h1 : d1.Inv) (h2 : d2.Inv) :
     (Deque.zipNext it d1 d2 m).2.2.2 = m ∧
     ((Deque.zipRemove it d1 d2 m).2.2.2.1.Inv ∧ (Deque.zipRemove it d1 d2 m).2.2.2.2.1.Inv ∧
@@ -63,7 +84,7 @@ theorem zip_iterator_safe (it : Deque.Iter) (d1 d2 : Deque) (x y : Nat) (m : Mem
     ((Deque.zipReplace it d1 d2 x y m).2.2.1.Inv ∧ (Deque.zipReplace it d1 d2 x y m).2.2.2.1.Inv ∧
       (Deque.zipReplace it d1 d2 x y m).2.2.2.2 = m) ∧
     ((Deque.zipAdd it d1 d2 x y m).2.2.1.Inv ∧ (Deque.zipAdd it d1 d2 x y m).2.2.2.1.Inv ∧
-      Deque.memSame (Deque.zipAdd it d1 d2 x y m).2.2.2.2 m) := by
+      Deque.memSame2 d1.triple d2.triple (Deque.zipAdd it d1 d2 x y m).2.2.2.2 m) := by
   obtain ⟨_, _, _, n4⟩ := Deque.zipNext_spec it d1 d2 m h1 h2
   obtain ⟨_, _, _, _, _, r6, r7, r8⟩ := Deque.zipRemove_spec it d1 d2 m h1 h2
   obtain ⟨_, _, _, _, p5, p6, p7⟩ := Deque.zipReplace_spec it d1 d2 x y m h1 h2
@@ -71,71 +92,68 @@ theorem zip_iterator_safe (it : Deque.Iter) (d1 d2 : Deque) (x y : Nat) (m : Mem
   exact ⟨n4, ⟨r6, r7, r8⟩, ⟨p5, p6, p7⟩, ⟨a1, a2, a3⟩⟩
 
 /-- **(b) ledger of construction**: the constructor and each builder either produce an object that
-satisfies the invariant and own exactly two more blocks, or produce nothing and leave the balance (and the
-fault flag) as it was — whichever request was refused -/
-theorem builders_ledger (d : Deque) (confCap : Nat) (cp : Option (Nat → Nat)) (p : Nat → Bool) (m : Mem)
-    (hi : d.Inv) :
-    ((∃ c, (Deque.new confCap m).2.1 = some c ∧ c.Inv ∧ (Deque.new confCap m).2.2.live = m.live + 2) ∨
-      ((Deque.new confCap m).2.1 = none ∧ (Deque.new confCap m).2.2.live = m.live)) ∧
-    (Deque.new confCap m).2.2.fault = m.fault ∧
-    ((∃ c, (d.copy cp m).2.1 = some c ∧ c.Inv ∧ (d.copy cp m).2.2.live = m.live + 2) ∨
-      ((d.copy cp m).2.1 = none ∧ (d.copy cp m).2.2.live = m.live)) ∧
-    (d.copy cp m).2.2.fault = m.fault ∧
-    ((∃ c, (d.filter p m).2.1 = some c ∧ c.Inv ∧ (d.filter p m).2.2.live = m.live + 2) ∨
-      ((d.filter p m).2.1 = none ∧ (d.filter p m).2.2.live = m.live)) ∧
-    (d.filter p m).2.2.fault = m.fault := by
-  refine ⟨?_, ?_, ?_, ?_, ?_, ?_⟩
-  · rcases Deque.new_spec confCap m with ⟨_, c, n2, n3, _, _, n6, _⟩ | ⟨_, n2, n3, _⟩
-    · exact Or.inl ⟨c, n2, n3, n6⟩
-    · exact Or.inr ⟨n2, n3.1⟩
-  · rcases Deque.new_spec confCap m with ⟨_, c, _, _, _, _, _, n7, _⟩ | ⟨_, _, n3, _⟩
-    · exact n7
-    · exact n3.2.1
-  · rcases Deque.copy_spec d cp m hi with ⟨_, c, n2, n3, _, _, n6, _⟩ | ⟨_, n2, n3, _⟩
-    · exact Or.inl ⟨c, n2, n3, n6⟩
-    · exact Or.inr ⟨n2, n3.1⟩
-  · rcases Deque.copy_spec d cp m hi with ⟨_, c, _, _, _, _, _, n7⟩ | ⟨_, _, n3, _⟩
-    · exact n7
-    · exact n3.2.1
-  · rcases Deque.filter_spec d p m hi with ⟨_, h2, _⟩ | ⟨_, _, _, c, f1, f2, _, _, f5, _⟩ | ⟨_, _, f3, f4, _⟩
-    · rw [h2]; exact Or.inr ⟨rfl, rfl⟩
-    · exact Or.inl ⟨c, f1, f2, f5⟩
-    · exact Or.inr ⟨f3, f4.1⟩
-  · rcases Deque.filter_spec d p m hi with ⟨_, h2, _⟩ | ⟨_, _, _, c, _, _, _, _, _, f6⟩ | ⟨_, _, _, f4, _⟩
-    · rw [h2]
-    · exact f6
-    · exact f4.2.1
+satisfies the invariant and owns exactly two more blocks **on the triple it was given / inherited**
+(`memRel t 2`: other triple untouched, no fault), or produce nothing and leave everything balanced —
+whichever request was refused -/
+theorem builders_ledger (d : Deque) (confCap : Nat) (t : Triple) (cp : Option (Nat → Nat)) (p : Nat → Bool)
+    (m : Mem) (hi : d.Inv) :
+    ((∃ c, (Deque.new confCap t m).2.1 = some c ∧ c.Inv ∧ c.triple = t ∧ Deque.memRel t 2 (Deque.new confCap t m).2.2 m) ∨
+      ((Deque.new confCap t m).2.1 = none ∧ Deque.memSame t (Deque.new confCap t m).2.2 m)) ∧
+    ((∃ c, (d.copy cp m).2.1 = some c ∧ c.Inv ∧ c.triple = d.triple ∧ Deque.memRel d.triple 2 (d.copy cp m).2.2 m) ∨
+      ((d.copy cp m).2.1 = none ∧ Deque.memSame d.triple (d.copy cp m).2.2 m)) ∧
+    ((∃ c, (d.filter p m).2.1 = some c ∧ c.Inv ∧ c.triple = d.triple ∧ Deque.memRel d.triple 2 (d.filter p m).2.2 m) ∨
+      ((d.filter p m).2.1 = none ∧ Deque.memSame d.triple (d.filter p m).2.2 m)) := by
+  refine ⟨?_, ?_, ?_⟩
+  · rcases Deque.new_spec confCap t m with ⟨_, c, n2, n3, _, _, n6, n7, _⟩ | ⟨_, n2, n3, _⟩
+    · exact Or.inl ⟨c, n2, n3, n6, n7⟩
+    · exact Or.inr ⟨n2, n3⟩
+  · rcases Deque.copy_spec d cp m hi with ⟨_, c, n2, n3, _, _, n6, n7, _⟩ | ⟨_, n2, n3, _⟩
+    · exact Or.inl ⟨c, n2, n3, n6, n7⟩
+    · exact Or.inr ⟨n2, n3⟩
+  · rcases Deque.filter_spec d p m hi with ⟨_, h2, _⟩ | ⟨_, _, _, c, f1, f2, _, _, f5, f6, _⟩ | ⟨_, _, f3, f4, _⟩
+    · rw [h2]; exact Or.inr ⟨rfl, Deque.memSame_refl _ m⟩
+    · exact Or.inl ⟨c, f1, f2, f5, f6⟩
+    · exact Or.inr ⟨f3, f4⟩
 
-/-- **every block is released exactly once**: construct (any configured capacity, any refusal schedule),
-run any history (refusals included), destroy — the ledger balance is back at its initial value and
-nothing faulted (no double free, no release of a foreign block); a refused construction yields no object
-and an unchanged balance -/
-theorem destroy_releases_all (confCap : Nat) (m0 : Mem) (ops : List Op) :
-    (∃ d0, (Deque.new confCap m0).2.1 = some d0 ∧
-      ((runM d0 (Deque.new confCap m0).2.2 ops).2.1.destroy (runM d0 (Deque.new confCap m0).2.2 ops).2.2).live = m0.live ∧
-      ((runM d0 (Deque.new confCap m0).2.2 ops).2.1.destroy (runM d0 (Deque.new confCap m0).2.2 ops).2.2).fault = m0.fault) ∨
-    ((Deque.new confCap m0).2.1 = none ∧ (Deque.new confCap m0).2.2.live = m0.live ∧
-      (Deque.new confCap m0).2.2.fault = m0.fault) := by
-  rcases Deque.new_spec confCap m0 with ⟨_, d0, n2, n3, _, _, n6, n7, _⟩ | ⟨_, n2, n3, _⟩
+/-- **every block is released exactly once**: construct (any configured capacity, either triple, any
+refusal schedule), run any history (refusals included), destroy — both balances are back at their initial
+values, nothing faulted (no double free, no release through the wrong triple: that would unbalance the other
+side), and the other triple saw no event at all; a refused construction yields no object and a balanced
+ledger -/
+theorem destroy_releases_all (confCap : Nat) (t : Triple) (m0 : Mem) (ops : List Op) :
+    (∃ d0, (Deque.new confCap t m0).2.1 = some d0 ∧
+      Deque.memSame t ((runM d0 (Deque.new confCap t m0).2.2 ops).2.1.destroy
+        (runM d0 (Deque.new confCap t m0).2.2 ops).2.2) m0) ∨
+    ((Deque.new confCap t m0).2.1 = none ∧ Deque.memSame t (Deque.new confCap t m0).2.2 m0) := by
+  rcases Deque.new_spec confCap t m0 with ⟨_, d0, n2, n3, _, _, n6, n7, _⟩ | ⟨_, n2, n3, _⟩
   · left
-    obtain ⟨_, h2, h3⟩ := history_nofault ops d0 (Deque.new confCap m0).2.2 n3
-    obtain ⟨g1, g2⟩ := Deque.destroy_ledger (runM d0 (Deque.new confCap m0).2.2 ops).2.1
-      (runM d0 (Deque.new confCap m0).2.2 ops).2.2 (by rw [h3, n6]; omega)
-    exact ⟨d0, n2, by rw [g1, h3, n6]; omega, by rw [g2, h2, n7]⟩
-  · exact Or.inr ⟨n2, n3.1, n3.2.1⟩
+    obtain ⟨_, h2, h3⟩ := history_nofault ops d0 (Deque.new confCap t m0).2.2 n3
+    rw [n6] at h2 h3
+    have hrun : Deque.memRel t 2 (runM d0 (Deque.new confCap t m0).2.2 ops).2.2 m0 := Deque.memRel_same h2 n7
+    have hd := Deque.destroy_ledger (runM d0 (Deque.new confCap t m0).2.2 ops).2.1
+      (runM d0 (Deque.new confCap t m0).2.2 ops).2.2 (by rw [h3]; have := hrun.1; omega)
+    rw [h3] at hd
+    exact ⟨d0, n2, Deque.memD_norm (k := 0) (j := 2) (by simpa using Deque.memD_trans hd hrun)⟩
+  · exact Or.inr ⟨n2, n3⟩
 
 /-- **(c) callbacks**: `foreach` — and therefore `remove_all_cb` and `destroy_cb`, which are `foreach`
 followed by `remove_all` (and `destroy`) — hands each held element to the callback exactly once, front to
 back: the callback log is the abstraction; afterwards the deque is empty and `destroy_cb` has released
-both blocks -/
-theorem callbacks_visit_each_once (d : Deque) (m : Mem) (hi : d.Inv) (hlive : 2 ≤ m.live) :
+both blocks through the deque's triple -/
+theorem callbacks_visit_each_once (d : Deque) (m : Mem) (hi : d.Inv) (hlive : 2 ≤ Deque.liveOf d.triple m) :
     (d.foreach m).1 = d.abs ∧ (d.foreach m).2 = m ∧ d.removeAll.abs = [] ∧ d.removeAll.Inv ∧
-    (d.removeAll.destroy (d.foreach m).2).live = m.live - 2 ∧
-    (d.removeAll.destroy (d.foreach m).2).fault = m.fault := by
+    Deque.memD d.triple 0 2 (d.removeAll.destroy (d.foreach m).2) m := by
   obtain ⟨f1, f2⟩ := Deque.foreach_spec d m hi
   obtain ⟨r1, r2, _⟩ := Deque.removeAll_spec d hi
-  obtain ⟨g1, g2⟩ := Deque.destroy_ledger d.removeAll m hlive
+  have g := Deque.destroy_ledger d.removeAll m hlive
   rw [f2]
-  exact ⟨f1, rfl, r2, r1, g1, g2⟩
+  exact ⟨f1, rfl, r2, r1, g⟩
+
+/-- non-vacuity: a wrapped, exactly full deque on the C library triple grows without touching the
+configured side of the ledger -/
+example : (Deque.mk 4 4 3 3 [12, 13, 14, 11] .libc).Inv ∧
+    (stepM (Deque.mk 4 4 3 3 [12, 13, 14, 11] .libc) { sched := [true], liveLibc := 2 } (.addLast 5)).1 = ⟨some .ok, none⟩ ∧
+    (stepM (Deque.mk 4 4 3 3 [12, 13, 14, 11] .libc) { sched := [true], liveLibc := 2 } (.addLast 5)).2.2.liveLibc = 2 := by
+  decide
 
 end CC.Properties.C06Deque
